@@ -91,6 +91,11 @@ class Check(PropertyCheck):
                 fts = "-"
             else:
                 fts = "".join(rng.sample(sup, rng.randint(1, len(sup))))
+            if rng.random() < 0.06:
+                # a constructor that refuses its arguments (a feature type the observer does not support) is tried first: the caller
+                # catches the error and goes on - nobody was subscribed, the observers built afterwards work as ever
+                lines.append(rng.choice(["fobs remaining_operations o", "fobs position_in_job m", "fobs position_in_job j",
+                                         "fobs remaining_operations oj"]))
             lines.append(f"fobs {k} {fts}")
             have[k] = fts
         lines.append("fcomp all")
